@@ -1123,8 +1123,13 @@ class InspectFunction(object):
         # For now, do not look carefully at the arguments, just parse the arguments of
         # the functions.
         # TODO: add more arguments if we can parse constant arguments
+        named_args = get_arg_ctx_ast(caller_fun, [], OrderedDict())
+        if node.args or node.keywords:
+            # The arguments of a plain call are not parsed: the parameters are unknown (the call depends on its
+            # call site). Without this, h(10) for 'def h(n=3)' is analysed as h() with the default.
+            named_args = OrderedDict((n_, None) for n_ in named_args)
         arg_ctx = FunctionArgContext(
-            named_args=get_arg_ctx_ast(caller_fun, [], OrderedDict()),
+            named_args=named_args,
             inner_call_key=context_sig,
         )
         new_call_stack = call_stack + [caller_fun_path]
